@@ -113,7 +113,7 @@ mod verif_kani_jsonarr {
     fn run(n_prefix: usize) {
         let min_items: usize = kani::any();
         let max_items: Option<usize> = if kani::any() { Some(kani::any()) } else { None };
-        kani::assume(min_items <= 3 && max_items.map_or(true, |m| m <= 3 && min_items <= m));
+        kani::assume(min_items <= 2 && max_items.map_or(true, |m| m <= 2 && min_items <= m));
         let mut prefix_items = Vec::with_capacity(NP);
         let pok: [bool; NP] = kani::any();
         let mut i = 0;
@@ -133,7 +133,7 @@ mod verif_kani_jsonarr {
         // reference: the lengths a JSON array may have under this schema
         // position i (0-based) can be filled iff i < n_prefix ? pok[i] : have_additional; lengths are prefix-closed in that sense
         let mut fillable = 0usize; // number of leading positions that can be filled (capped at 15)
-        while fillable < 7 {
+        while fillable < 5 {
             let ok = if fillable < n_prefix { pok[fillable] } else { have_additional };
             if !ok {
                 break;
@@ -141,7 +141,7 @@ mod verif_kani_jsonarr {
             fillable += 1;
         }
         let k: usize = kani::any();
-        kani::assume(k <= 6);
+        kani::assume(k <= 4);
         let wanted = k >= min_items && max_items.map_or(true, |m| k <= m) && k <= fillable;
         match &r {
             Ok(n) => {
@@ -154,7 +154,7 @@ mod verif_kani_jsonarr {
                 assert!(e.unsat && fillable < min_items);
             }
         }
-        kani::cover!(r.is_ok() && min_items == 2 && max_items == Some(3));
+        kani::cover!(r.is_ok() && min_items == 1 && max_items == Some(2));
         // NOTE: unreachable in json_array_lengths_p0 (no prefix items: the statements in front of the span guarantee that minItems can
         // be reached); unit.json registers `min_covers: 1` for that harness - the text is kept because CBMC's memory use on this
         // harness is sensitive to the formula (without this statement it exceeded the 14 GB guard)
@@ -171,7 +171,7 @@ mod verif_kani_jsonarr {
     #[kani::unwind(10)]
     fn mustfail_json_array_empty_always() {
         let min_items: usize = kani::any();
-        kani::assume(min_items <= 3);
+        kani::assume(min_items <= 2);
         let arr = ArraySchema { min_items, max_items: None, prefix_items: Vec::new() };
         let mut c = ShimCompiler { builder: ShimBuilder };
         if let Ok(n) = c.array_tail(&arr, Some(NodeRef(0b10))) {
